@@ -2,6 +2,8 @@
 import re
 from core import CheckError, short, short_fn
 from engine import has_release, has_acquire, is_const, norm_rel
+
+MASK_TAG = 9223372036854775807   # !(1 << 63): counts without the tag bit
 from rules_send import FLAVOURS, WRITE_OPS, CAS_OPS, fns_mentioning, constructs, site_key
 
 
@@ -177,6 +179,32 @@ def _p9(ctx):
                         and q[0] == 'c' and str(q[1]) == '1':
                     ok = True
                     ld = x.rep(p[1])
+        if not ok:
+            # the same answer spelled with control flow (`if n == 1 { true } else { false }`, a two-valued enum mapped
+            # back to bool, ..): every `true` that can be returned lies behind the equal edge of the test of the
+            # consumer count against one, every `false` behind the other edge
+            cts = []
+            for t_ in x.tests(('Eq',)):
+                for (p, q) in ((t_.a, t_.b), (t_.b, t_.a)):
+                    if p[0] == 'call' and x.rep(p[1]) in x.atoms and x.atoms[x.rep(p[1])].on('ReaderMeta.num_consumers') \
+                            and x.atoms[x.rep(p[1])].op == 'load' and is_const(q, 1):
+                        cts.append((t_, x.rep(p[1])))
+            g._fwd_calls = set()
+            origins, allc = g._const_origins(g.root_inst, 0, set())
+            if cts and origins and allc and len({l_ for (_, l_) in cts}) == 1:
+                te = set()
+                fe = set()
+                for (t_, _) in cts:
+                    te.update(t_.true)
+                    fe.update(t_.false)
+                live = g.live()
+                ok = True
+                for (o, v) in origins:
+                    for m in g.members(o):
+                        if m in live and not x.dom(te if str(v) != '0' else fe, m):
+                            ok = False
+                if ok:
+                    ld = cts[0][1]
         dropn = [n.id for n in g.nodes if n.id in g.live() and n.kind == 'block' and n.term['k'] == 'drop' and 'Recv' in n.term['dty']['s']]
         ok2 = ld is not None and all(not x.reaches(dn, ld) for dn in dropn) and bool(dropn)
         ctx.add('P9f', 'T-FLOW', fn, ok and ok2, 'unsubscribe() returns (consumers == 1) evaluated before the handle is dropped' if ok and ok2 else
@@ -273,6 +301,9 @@ def _p10(ctx):
                     fail.update(x.switch_edges(sid, '1'))
             missing = []
             for n in allocs:
+                # (an allocation made once before the retry loop is kept across retries: nothing to release per attempt)
+                if fail and not any(x.reaches(f_, n) for f_ in fail):
+                    continue
                 ds = [d for d in deallocs if alloc_res[n] & x.calls_in(g.call_args(d)[0])]
                 if not ds or not all(x.must(f_, set(ds), exits=set(g.exits) | {C}) for f_ in fail):
                     missing.append(x.describe(n))
@@ -330,6 +361,22 @@ def _p10(ctx):
                 parent = [a for a in srcs if any(p.startswith('<Reader>/Reader.pos/ReaderPos.pos_data') for p in a.paths)]
                 arith = [s for v in vals for s in g.walk(v) if s[0] in ('bin', 'un') or s[0] == 'c']
                 oka = bool(vals) and bool(parent) and len(parent) == len(srcs) and not arith
+                # the position may also be given to the new stream by a store of its own before the list that contains it
+                # is published (cells allocated once, placed anew in every attempt): then that store decides
+                pstores = [a for a in x.atoms_on('ReaderPos.pos_data', ops={'store'}) if not any(p.startswith('<Reader>/') for p in a.paths)]
+                if pstores:
+                    def _tagmask(s_):
+                        return s_[0] == 'bin' and s_[1] == 'BitAnd' and any(is_const(g.strip(o_), MASK_TAG) for o_ in (s_[2], s_[3]))
+                    okv = True
+                    for a in pstores:
+                        v = g.call_args(a.nid)[1]
+                        srcs = list(x.loads_in(v))
+                        parent = [l_ for l_ in srcs if any(p.startswith('<Reader>/Reader.pos/ReaderPos.pos_data') for p in l_.paths)]
+                        arith = [s_ for s_ in g.walk(v) if (s_[0] in ('bin', 'un') and not _tagmask(s_)) or (s_[0] == 'c' and not is_const(s_, MASK_TAG))]
+                        okv = okv and bool(parent) and len(parent) == len(srcs) and not arith
+                    pn = {a.nid for a in pstores}
+                    # placed before every publication attempt, never after one succeeded
+                    oka = okv and x.dom(pn, C) and not any(x.reaches(s_, p_) for s_ in succ for p_ in pn)
                 ctx.add('P10a', 'T-FLOW', fn, oka, 'the new stream starts at the parent\'s position, loaded during the call' if oka else
                         'the new stream\'s initial position is not (only) the parent\'s current position (sources: %s, arithmetic/constants: %s)'
                         % ([sorted(a.paths)[0] for a in srcs], bool(arith)), where=x.where_stmt(nid, si), sub=sub + '|startpos')
@@ -418,7 +465,9 @@ def _w13_w14(ctx):
             continue
         g = ctx.graph(name, 'MPMC')
         x = g.x
-        st = [a for a in x.atoms_on('ReaderPos.pos_data') if a.op == 'store']
+        # (stores into the position of the handle's own stream; a cell allocated during the call belongs to a stream
+        # nobody else can see yet)
+        st = [a for a in x.atoms_on('ReaderPos.pos_data') if a.op == 'store' and any(not p_.startswith('<call:') for p_ in a.paths)]
         if not st:
             continue
         single = _single_state_edges(g, x, F)
@@ -538,7 +587,7 @@ def _w13_w14(ctx):
                 '%s creates a stream on a move-out queue only by consuming the handle (never two live streams)' % short_fn(name) if by_value else
                 '%s(&self) creates a second live stream on a move-out (MPMC) queue: both streams bitwise-view and destroy every value (double drop / use after free)' % short_fn(name),
                 sub='by-value')
-    ctx.floor('W14', len(pubs), 3, 'MPMC wrapper methods reaching InnerRecv::add_stream')
+    ctx.floor('W14', len(pubs), 1, 'MPMC wrapper methods reaching InnerRecv::add_stream')
 
 
 def _s5(ctx):
